@@ -111,11 +111,18 @@ WARNING_FAULTS = [
 BARE_DIAG_RE = re.compile(rb"^[^\n]*:\d+:\d+: (Error|Warning): [^\n]*$")
 
 
+# errors that are only discovered late (final 'resolve every symbol' pass, link time, deferred evaluation):
+# a share of programs gets exactly one of these and nothing else
+LATE_TAGS = ("unused-bad-consts", "unused-bad-consts2", "odd-branch", "far-branch", "sob-forward", "odd-word",
+             "div-zero", "undefined", "second-link")
+
+
 def plant(rng, prog, n_err, n_warn):
     """Insert planted faults at statement boundaries (never after a terminating .end)."""
     planted = []
-    for pool, n in ((ERROR_FAULTS, n_err), (WARNING_FAULTS, n_warn)):
-        for _ in range(n):
+    late = [f for f in ERROR_FAULTS if f[0] in LATE_TAGS]
+    for pool, n in ((ERROR_FAULTS, n_err), (WARNING_FAULTS, n_warn), (late, 1 if n_err == -1 else 0)):
+        for _ in range(max(n, 0)):
             tag, phase, sev, text = rng.choice(pool)
             f = rng.choice(prog.files)
             hi = len(f.stmts)
@@ -253,6 +260,8 @@ def make_cli_case(rng, profile=None, n_err=None, n_warn=None, allow_stdin=True, 
     prog = g.program(CWD)
     if n_err is None:
         n_err = rng.choice([0, 0, 0, 1, 1, 2, 3])
+        if rng.random() < 0.08:
+            n_err = -1          # exactly one late-discovered error
     if n_warn is None:
         n_warn = rng.choice([0, 0, 1, 1, 2, 3])
     plant(rng, prog, n_err, n_warn)
